@@ -60,6 +60,40 @@ var fnUniverse = []interface{}{
 	func(ctx, ctx2 context.Context, a int) int { ran(); return a },
 	func(ctx context.Context) int { ran(); return 0 },
 
+	// ---- first parameter of a type that implements context.Context without
+	// being it (a column parameter, not the optional context argument), with and
+	// without a real context.Context in front
+	func(c traceCtx, a int) int { ran(); return a },
+	func(c traceCtx, a int) bool { ran(); return true },
+	func(c traceCtx, a int) []int { ran(); return nil },
+	func(c traceCtx) int { ran(); return 0 },
+	func(ctx context.Context, c traceCtx, a int) int { ran(); return a },
+	func(ctx context.Context, c traceCtx, a int) bool { ran(); return true },
+	func(c ctxStruct, a int) int { ran(); return a },
+	func(c ctxStruct, a int) bool { ran(); return true },
+	func(c *ctxStruct, a int) int { ran(); return a },
+	func(ctx context.Context, c ctxStruct, a int) []int { ran(); return nil },
+	func(c traceCtx, a int, b string) (string, int) { ran(); return b, a },
+	// accumulators / reducers whose accumulator or value type is such a type
+	func(acc traceCtx, v int) traceCtx { ran(); return acc },
+	func(acc ctxStruct, v string) ctxStruct { ran(); return acc },
+	func(ctx context.Context, acc traceCtx, v int) traceCtx { ran(); return acc },
+	func(a, b traceCtx) traceCtx { ran(); return a },
+	func(ctx context.Context, a, b traceCtx) traceCtx { ran(); return a },
+	func(a, b ctxStruct) ctxStruct { ran(); return a },
+	// partition / reader / writer functions with such a parameter in front
+	func(c traceCtx, n int, a int) int { ran(); return 0 },
+	func(n int, c traceCtx, a int) int { ran(); return 0 },
+	func(c traceCtx, shard int, state int, a []int) (int, error) { ran(); return 0, nil },
+	func(c ctxStruct, shard int, state int, a []int) (int, error) { ran(); return 0, nil },
+	func(c traceCtx, shard int, state int, err error, a []int) error { ran(); return nil },
+	func(shard int, state int, err error, a []traceCtx, b []int) error { ran(); return nil },
+	func(ctx context.Context, shard int, state int, err error, a []traceCtx, b []int) error {
+		ran()
+		return nil
+	},
+	func(shard int, state traceCtx, a []traceCtx) (int, error) { ran(); return 0, nil },
+
 	// ---- variadic forms
 	func(a int, b ...int) int { ran(); return a },
 	func(a ...int) int { ran(); return 0 },
